@@ -13,6 +13,12 @@ pub trait Input {
 
     fn input(&mut self) -> std::io::Result<String>;
 
+    /// Reads a numeric field: besides a comma or the end of the line,
+    /// a blank after the number ends it too (e.g. the text written by `PRINT #1, A; B`).
+    fn input_number(&mut self) -> std::io::Result<String> {
+        self.input()
+    }
+
     fn line_input(&mut self) -> std::io::Result<String>;
 }
 
